@@ -1,1 +1,293 @@
-//! placeholder
+//! Ownership tokens (shape S_tok): every key/value is a `Tok` registered in a
+//! global ledger.  `Drop`, `==` and `Clone` are the *user callbacks* of the
+//! container; each of them
+//!   * asserts the ledger discipline (C02): a token is destroyed exactly once,
+//!     only live tokens are compared / cloned / destroyed, so touching a vacated
+//!     or never-initialised slot (nondeterministic bytes under CBMC) fails;
+//!   * runs the unwind monitor (C04) on every watched container: if user code
+//!     panicked right here, would unwinding find the container droppable?
+
+use crate::Map;
+
+pub const MAXT: usize = 16;
+pub const NONE: usize = usize::MAX;
+
+pub static mut STATE: [u8; MAXT] = [0; MAXT]; // 0 unborn, 1 live, 2 dead
+pub static mut CLONED: [u8; MAXT] = [0; MAXT]; // clones taken from token i
+pub static mut ORIGIN: [usize; MAXT] = [NONE; MAXT]; // source token of a clone
+pub static mut NEXT: usize = 1; // id 0 is never issued: zeroed (never written) slots are not live
+pub static mut DROPPING: usize = NONE;
+pub static mut CALLBACKS: usize = 0;
+
+pub static mut WATCH_PTR: [*const (); 3] = [core::ptr::null(); 3];
+pub static mut WATCH_FN: [Option<fn(*const ())>; 3] = [None; 3];
+
+#[derive(Debug)]
+pub struct Tok {
+    pub id: usize,
+    pub key: u8,
+}
+
+pub fn is_live(id: usize) -> bool {
+    unsafe { id < NEXT && id < MAXT && STATE[id] == 1 }
+}
+pub fn is_dead(id: usize) -> bool {
+    unsafe { id < NEXT && id < MAXT && STATE[id] == 2 }
+}
+
+impl Tok {
+    pub fn mint(key: u8) -> Tok {
+        unsafe {
+            let id = NEXT;
+            assert!(id < MAXT, "harness: token ledger too small");
+            NEXT += 1;
+            STATE[id] = 1;
+            Tok { id, key }
+        }
+    }
+}
+
+impl kani::Arbitrary for Tok {
+    fn any() -> Self {
+        Tok::mint(kani::any())
+    }
+}
+
+impl Drop for Tok {
+    fn drop(&mut self) {
+        unsafe {
+            assert!(self.id < NEXT && self.id < MAXT,
+                "C02: destroyed something that is not a live element (uninitialised or vacated slot)");
+            assert!(STATE[self.id] == 1, "C02: element destroyed twice");
+            DROPPING = self.id;
+            monitor();
+            DROPPING = NONE;
+            STATE[self.id] = 2;
+        }
+    }
+}
+
+impl PartialEq for Tok {
+    fn eq(&self, o: &Self) -> bool {
+        assert!(is_live(self.id) && is_live(o.id), "C02: compared a dead or uninitialised element");
+        monitor();
+        self.key == o.key
+    }
+}
+impl Eq for Tok {}
+
+impl Clone for Tok {
+    fn clone(&self) -> Self {
+        assert!(is_live(self.id), "C02: cloned a dead or uninitialised element");
+        monitor();
+        unsafe {
+            CLONED[self.id] += 1;
+            let t = Tok::mint(self.key);
+            ORIGIN[t.id] = self.id;
+            t
+        }
+    }
+}
+
+impl core::borrow::Borrow<u8> for Tok {
+    fn borrow(&self) -> &u8 {
+        &self.key
+    }
+}
+
+/// token-ness of a map's value type (sets use `()`)
+pub trait Tokish {
+    fn tid(&self) -> usize;
+}
+impl Tokish for Tok {
+    fn tid(&self) -> usize {
+        self.id
+    }
+}
+impl Tokish for () {
+    fn tid(&self) -> usize {
+        NONE
+    }
+}
+
+/// Runs at every user callback: all watched containers must be in a state that
+/// unwinding could drop.
+pub fn monitor() {
+    unsafe {
+        CALLBACKS += 1;
+        monitor1(0);
+        monitor1(1);
+        monitor1(2);
+    }
+}
+
+unsafe fn monitor1(s: usize) {
+    if let Some(f) = WATCH_FN[s] {
+        if !WATCH_PTR[s].is_null() {
+            f(WATCH_PTR[s]);
+        }
+    }
+}
+
+pub fn unwind_safe<V: Tokish, const N: usize>(p: *const ()) {
+    unsafe {
+        let m = &*(p as *const Map<Tok, V, N>);
+        assert!(m.len <= N, "C04: len exceeds capacity while user code runs");
+        let base = m.pairs.as_ptr() as *const (Tok, V);
+        let mut i = 0;
+        while i < N {
+            if i < m.len {
+                let e = &*base.add(i);
+                let kid = e.0.id;
+                let vid = e.1.tid();
+                assert!(is_live(kid) && (vid == NONE || is_live(vid)),
+                    "C04: a slot counted by len holds a dead or uninitialised element while user code runs (a panic here makes unwinding destroy it again or treat garbage as live)");
+                assert!(kid != DROPPING && (vid == NONE || vid != DROPPING),
+                    "C04: the element being destroyed is still counted by len (a panicking destructor makes unwinding destroy it twice)");
+                let mut j = i + 1;
+                while j < N {
+                    if j < m.len {
+                        let f = &*base.add(j);
+                        assert!(f.0.id != kid && (vid == NONE || f.1.tid() != vid),
+                            "C04: the same element is counted twice while user code runs");
+                    }
+                    j += 1;
+                }
+            }
+            i += 1;
+        }
+    }
+}
+
+pub fn watch<V: Tokish, const N: usize>(slot: usize, m: &Map<Tok, V, N>) {
+    unsafe {
+        WATCH_PTR[slot] = m as *const Map<Tok, V, N> as *const ();
+        WATCH_FN[slot] = Some(unwind_safe::<V, N>);
+    }
+}
+
+/// registers only the checker; the pointer is supplied by the body hook in `clone`
+pub fn watch_fn<V: Tokish, const N: usize>(slot: usize) {
+    unsafe {
+        WATCH_PTR[slot] = core::ptr::null();
+        WATCH_FN[slot] = Some(unwind_safe::<V, N>);
+    }
+}
+
+pub fn unwatch(slot: usize) {
+    unsafe {
+        WATCH_PTR[slot] = core::ptr::null();
+        WATCH_FN[slot] = None;
+    }
+}
+
+/// Body hook (injected into `Map::clone` after `let mut m = Self::new();`):
+/// makes the locally built destination visible to the monitor.
+pub fn hook_local<K, V, const N: usize>(m: &Map<K, V, N>) {
+    unsafe {
+        if WATCH_FN[2].is_some() {
+            WATCH_PTR[2] = m as *const Map<K, V, N> as *const ();
+        }
+    }
+}
+
+fn live1(i: usize) -> usize {
+    unsafe {
+        if i < NEXT && STATE[i] == 1 {
+            1
+        } else {
+            0
+        }
+    }
+}
+
+/// number of live tokens (written without a loop: MAXT = 16 would otherwise set
+/// the unwinding bound of every loop in the harness)
+pub fn live_count() -> usize {
+    live1(0) + live1(1) + live1(2) + live1(3) + live1(4) + live1(5) + live1(6) + live1(7)
+        + live1(8) + live1(9) + live1(10) + live1(11) + live1(12) + live1(13) + live1(14) + live1(15)
+}
+
+/// every token ever created has been destroyed (exactly once - a second
+/// destruction fails in `Drop`), except `live_ok` ones still held or leaked on purpose
+pub fn all_dead_except(live_ok: usize) {
+    assert!(live_count() == live_ok, "C02: an element was leaked, or is still alive after everything was dropped");
+}
+
+/// any len <= N, fresh tokens in the live prefix; slots beyond len keep the bytes
+/// `Map::new()` left there (all zero under Kani = the never-issued id 0)
+pub fn any_tok_weak<V: kani::Arbitrary, const N: usize>() -> Map<Tok, V, N> {
+    let mut m: Map<Tok, V, N> = Map::new();
+    let len: usize = kani::any();
+    kani::assume(len <= N);
+    let mut i = 0;
+    while i < N {
+        if i < len {
+            m.pairs[i] = core::mem::MaybeUninit::new((kani::any(), kani::any()));
+        }
+        i += 1;
+    }
+    m.len = len;
+    m
+}
+
+/// Arbitrary well-formed map of tokens (keys pairwise different by `key`).
+pub fn any_tok_map<const N: usize>() -> Map<Tok, Tok, N> {
+    let m = any_tok_weak::<Tok, N>();
+    assume_distinct(&m);
+    m
+}
+pub fn any_tok_set_map<const N: usize>() -> Map<Tok, (), N> {
+    let m = any_tok_weak::<(), N>();
+    assume_distinct(&m);
+    m
+}
+
+pub fn key_at<V, const N: usize>(m: &Map<Tok, V, N>, i: usize) -> u8 {
+    unsafe { (*(m.pairs.as_ptr() as *const (Tok, V)).add(i)).0.key }
+}
+pub fn kid_at<V, const N: usize>(m: &Map<Tok, V, N>, i: usize) -> usize {
+    unsafe { (*(m.pairs.as_ptr() as *const (Tok, V)).add(i)).0.id }
+}
+pub fn vid_at<const N: usize>(m: &Map<Tok, Tok, N>, i: usize) -> usize {
+    unsafe { (*(m.pairs.as_ptr() as *const (Tok, Tok)).add(i)).1.id }
+}
+
+pub fn assume_distinct<V, const N: usize>(m: &Map<Tok, V, N>) {
+    let mut i = 0;
+    while i < N {
+        let mut j = i + 1;
+        while j < N {
+            if j < m.len {
+                kani::assume(key_at(m, i) != key_at(m, j));
+            }
+            j += 1;
+        }
+        i += 1;
+    }
+}
+
+/// the map's live prefix holds live, pairwise different tokens (wf for tokens)
+pub fn tok_wf<V: Tokish, const N: usize>(m: &Map<Tok, V, N>) -> bool {
+    if m.len > N {
+        return false;
+    }
+    let mut ok = true;
+    let mut i = 0;
+    while i < N {
+        if i < m.len {
+            if !is_live(kid_at(m, i)) {
+                ok = false;
+            }
+            let mut j = i + 1;
+            while j < N {
+                if j < m.len && key_at(m, i) == key_at(m, j) {
+                    ok = false;
+                }
+                j += 1;
+            }
+        }
+        i += 1;
+    }
+    ok
+}
